@@ -296,6 +296,7 @@ fn random_eval(src: &mut Src, obs: &mut Obs) -> Res {
     cfg.free_lit_escapes = true;
     cfg.special_literals = true;
     cfg.regex = true;
+    cfg.ext_funcs = true;
     let doc = gen_doc(src, &cfg).sorted();
     let q = gen_query(src, &doc, &cfg);
     let s = render_spelled(src, &q);
